@@ -40,9 +40,20 @@ def _task(name, opts=None):
         o["limits"] = opts["limits"]
     if o:
         t = t.options(**o)
-    if opts.get("ctx"):
-        t = t.update_context(opts["ctx"])
+    if opts.get("ctx") is not None or opts.get("ctx_kwargs"):
+        t = t.update_context(opts.get("ctx") or {}, **(opts.get("ctx_kwargs") or {}))
+    if opts.get("ctx2") is not None:
+        t = t.update_context(opts["ctx2"])
     return t
+
+
+def ctx_override(opts):
+    """The override a call carries, combined the way successive update_context calls combine."""
+    o = None
+    for part in (opts.get("ctx"), opts.get("ctx_kwargs"), opts.get("ctx2")):
+        if part is not None and (part or o is None):
+            o = part if o is None else merge_ctx(o, part)
+    return o
 
 
 def errclasses(names):
@@ -453,7 +464,8 @@ class Ref:
         return self._pure(lambda: f(*args, **kwargs))
 
     def apply_task(self, name, args, kwargs, opts, ctx):
-        jctx = merge_ctx(ctx, opts.get("ctx")) if opts.get("ctx") else ctx
+        ov = ctx_override(opts)
+        jctx = merge_ctx(ctx, ov) if ov else ctx
         # expression-valued defaults are evaluated in the callee's context
         dflts = T.DEFAULTS.get(name, {})
         if dflts:
@@ -556,7 +568,7 @@ def features(n, acc=None, parent=None):
     if k == "call":
         acc["calls"] += 1
         tag = "call:" + n[1] if n[1] in T.TEMPLATE or n[1] in ("fail", "fail_if", "dflt", "dflt_ctx", "a_fail") else "call"
-        if n[1] in ("fail", "a_fail"):
+        if n[1] in ("fail", "a_fail", "deep_fail"):
             acc["errors"] += 1
     acc["kinds"].add(tag)
     if parent:
@@ -684,7 +696,7 @@ class Gen:
                  "partial", "apply_func", "as_task", "seqidx", "sumlist", "calle", "rec", "thread", "dflt",
                  "apply_tags", "kwonly", "varargs", "lazy_cond", "noprov", "dictget", "lit", "cmp"]
         if self.err_budget > 0:
-            prods += ["fail", "fail_if"]
+            prods += ["fail", "fail_if", "deep_fail"]
         prods = [p for p in prods if self.ok(p)]
         p = rnd.choice(prods)
         sub = lambda: self.int_expr(d - 1)  # noqa: E731
@@ -771,6 +783,11 @@ class Gen:
             return ["noprov", sub()]
         if p == "fail":
             return self.fail_leaf()
+        if p == "deep_fail":
+            self.err_budget -= 1
+            self.uid += 1
+            return ["getitem", ["call", "deep_fail", [["val", rnd.randint(0, 2)], ["val", rnd.choice(["VErr", "VErrB", "KeyError"])],
+                                                       ["val", "deep%d" % self.uid]], {}, {}], 1]
         if p == "fail_if":
             self.err_budget -= 1
             return ["call", "fail_if", [sub(), ["val", rnd.choice([0, 3, 100])]], {}, {}]
